@@ -129,10 +129,26 @@ def run_one(ctx, src, scopes, config, keep, workdir, cli=False):
         with open(p1, 'wb') as fh:
             fh.write(rc.write_p8(regions, src, version=8))
         argv = ['-q', 'luamin'] + (['--keep-all-names'] if config.startswith('keep_all') else []) + (
-            ['--keep-names-from-file', keep_file] if 'keep_file' in config else []) + [p1]
+            ['--keep-names-from-file', keep_file] if 'keep_file' in config else [])
+        # several carts on one command line: every output must satisfy the property on its own
+        prev_src = ctx.extra.get('_prev_cli_src')
+        extra_paths = []
+        if prev_src is not None:
+            p0 = os.path.join(workdir, 'm0.p8')
+            with open(p0, 'wb') as fh:
+                fh.write(rc.write_p8(regions, prev_src, version=8))
+            extra_paths = [p0]
+            ctx.feature('cli_two_carts_one_invocation')
+        ctx.extra['_prev_cli_src'] = src
         try:
-            rcode = tool.main(argv)
+            rcode = tool.main(argv + extra_paths + [p1])
             got = rc.read_p8(open(os.path.join(workdir, 'n_fmt.p8'), 'rb').read())['code']
+            if extra_paths:
+                got0 = rc.read_p8(open(os.path.join(workdir, 'm0_fmt.p8'), 'rb').read())['code']
+                want0 = prev_src if prev_src.endswith(b'\n') else prev_src + b'\n'
+                pr0, pairs0, _ = minify.align(want0, got0, None)
+                if pr0 is None:
+                    check_mapping(ctx, pairs0, config, keep, dict(case, src=prev_src))
         except BaseException as e:
             ctx.violation('p8tool luamin failed: %r' % (e,), case)
             return
@@ -310,6 +326,7 @@ def run_shard(spec, ctx):
             ctx.feature('factory_enumeration_done')
             ctx.sample({'factory': 'id 0 -> %r, id %d -> %r' % (f.get_short_name(b'n0_'), N - 1, f.get_short_name(b'n%d_' % (N - 1)))})
     finally:
+        ctx.extra.pop('_prev_cli_src', None)
         shutil.rmtree(workdir, ignore_errors=True)
         if st is not None:
             from pico8.lua import lua
